@@ -474,8 +474,16 @@ def struct_case(cid, rng):
             clsbits.append("roundtrip")
             tags.add("roundtrip_multi" if n > 1 else "roundtrip")
 
-    decl = "#[derive(%s)]\n%spub struct S%s%s%s" % (
-        ", ".join("derive_more::" + d for d in derives), attrs, "<T>" if gen else "", f.decl(field_attrs), "" if kind == "named" else ";")
+    # generic parameters are declared plainly, with an inline bound, or with a `where` clause (u64 is Copy)
+    gstyle = rng.choice(("plain", "inline", "where")) if gen else None
+    gdecl = {"plain": "<T>", "inline": "<T: Copy>", "where": "<T>", None: ""}[gstyle]
+    wh = " where T: Copy" if gstyle == "where" else ""
+    if kind == "named":
+        decl_body = wh + f.decl(field_attrs)
+    else:
+        decl_body = f.decl(field_attrs) + wh + ";"
+    decl = "#[derive(%s)]\n%spub struct S%s%s" % (
+        ", ".join("derive_more::" + d for d in derives), attrs, gdecl, decl_body)
     if "Constructor" in derives:
         clsbits.append("ctor")
         if n > 1:
@@ -577,8 +585,9 @@ def _enum_try(cid, rng):
             if fa.fwd_match([(fam, k) for fam, k in zip(s, fb.ks)]):
                 return None
     ETY = "E<u64>" if gen else "E"
+    gstyle = rng.choice(("plain", "inline", "where")) if gen else None
     items = ["#[derive(derive_more::From)]\npub enum E%s {\n%s\n}" % (
-        "<T>" if gen else "", "\n".join("    %s%s%s," % (v["text"], v["name"], v["f"].decl(vis="")) for v in variants))]
+        {"plain": "<T>", "inline": "<T: Copy>", "where": "<T> where T: Copy", None: ""}[gstyle], "\n".join("    %s%s%s," % (v["text"], v["name"], v["f"].decl(vis="")) for v in variants))]
     arms = []
     for v in variants:
         p, vs_ = v["f"].pat("E::" + v["name"])
